@@ -49,9 +49,16 @@ class AgreeFamily(Family):
         states = [S.ZERO if pat == 0 else S.ONE if pat == 1 else (S.ONE if i % 2 else S.ZERO) for i in range(d)]
         init = InitialStateContainer.from_ordered_list(states)
         desc = RepetitionCodeDescription.from_chain(2 * d - 1)
-        c = construct_repetition_code_multi_round_circuit(qec_cycles=list(rl), description=desc, initial_state=init)
-        k = RepetitionExperimentKernel(rounds=list(rl), heralded_initialization=True, qutrit_calibration_points=True,
+        # the kernel is built first, from the description's own identifier lists (as an analysis script would do),
+        # and must leave its inputs alone; the circuit is then built from the same description
+        rounds_in = list(rl)
+        ids_before = ([q.id for q in desc.data_qubit_ids], [q.id for q in desc.ancilla_qubit_ids])
+        k = RepetitionExperimentKernel(rounds=rounds_in, heralded_initialization=True, qutrit_calibration_points=True,
                                        involved_data_qubit_ids=desc.data_qubit_ids, involved_ancilla_qubit_ids=desc.ancilla_qubit_ids, experiment_repetitions=1)
+        if ([q.id for q in desc.data_qubit_ids], [q.id for q in desc.ancilla_qubit_ids]) != ids_before or rounds_in != list(rl):
+            res.fail('C13-kernel-mutates-input', '%r: constructing the kernel changed the identifier lists / rounds list it was given: %r -> %r' % (
+                case, ids_before, ([q.id for q in desc.data_qubit_ids], [q.id for q in desc.ancilla_qubit_ids])))
+        c = construct_repetition_code_multi_round_circuit(qec_cycles=list(rl), description=desc, initial_state=init)
         slots = cycle_layout(rl, True)
         n = len(slots)
         zero_round_final = sorted(i for i, (b, role) in enumerate(slots) if role == 'F' and b != 'cal' and rl[b] == 0)
